@@ -714,15 +714,21 @@ def _f1_regression():
     return A, meshgen.relabel(rng, A)
 
 
+def _run_witness(entry):
+    from fcv import core
+    try:
+        return core.run_named_witness(entry)
+    except Exception as e:   # noqa: BLE001  the implementation raising inside a witness is an observable: the witness fails
+        return True, f"exception:{type(e).__name__}"
+
+
 def replay_witness(ctx, entry):
     if entry.get("id") == "F1":
         A, B = _f1_regression()
         obs = [impl_compare(B, A)[0], impl_compare(A, B)[0]]
-        from fcv import core
-        f2, detail = core.run_named_witness(entry)
+        f2, detail = _run_witness(entry)
         return (not all(passes(o) for o in obs)) or f2, {"ladder": obs, "witness": detail}
-    from fcv import core
-    return core.run_named_witness(entry)
+    return _run_witness(entry)
 
 
 def replay(ctx, payload):
